@@ -5,6 +5,7 @@ import (
 	"fmt"
 	"os"
 	"path/filepath"
+	"reflect"
 	"sort"
 	"strings"
 	"sync"
@@ -50,7 +51,7 @@ var ifaceNames = []string{"IA", "IB"}
 var nsNames = []string{"A", "B"}
 
 // classes that exist only as files on the class path (namespace fx12): resolvable on demand from every VM
-var loadables = []string{"fx12\\La", "fx12\\Lb"}
+var loadables = []string{"fx12\\La", "fx12\\Lb", "fx12\\Ia"} // (Ia is an interface)
 
 var fx12Once sync.Once
 
@@ -58,9 +59,12 @@ func fx12Dir() string {
 	dir := filepath.Join(filepath.Dir(os.Args[0]), "c12fx")
 	fx12Once.Do(func() {
 		os.MkdirAll(dir, 0o755)
-		for _, n := range []string{"La", "Lb"} {
+		for _, n := range []string{"La", "Lb", "Ia"} {
 			p := filepath.Join(dir, n+".php")
 			text := fmt.Sprintf("<?php\nnamespace fx12;\nclass %s {\n  public function tag() { return \"%s\"; }\n}\n", n, n)
+			if n == "Ia" {
+				text = "<?php\nnamespace fx12;\ninterface Ia {\n}\n"
+			}
 			if b, err := os.ReadFile(p); err == nil && string(b) == text {
 				continue
 			}
@@ -574,7 +578,16 @@ func step(o *hx.Outcome, w *W, sy *sys, m *model, k int, op Op, log *[]string, o
 		}
 	case "autoload":
 		name := op.Defs[0].Name
-		c, ctl := sy.vm(op.VM).GetOrLoadClass(name)
+		var c any
+		var ctl data.Control
+		if strings.HasSuffix(name, "\\Ia") {
+			c, ctl = sy.vm(op.VM).GetOrLoadInterface(name)
+		} else {
+			c, ctl = sy.vm(op.VM).GetOrLoadClass(name)
+		}
+		if rv := reflect.ValueOf(c); c != nil && rv.Kind() == reflect.Pointer && rv.IsNil() {
+			c = nil
+		}
 		*log = append(*log, fmt.Sprintf("%d autoload vm%d %s -> found=%v %s", k, op.VM, name, c != nil && ctl == nil, first(hx.CtlStr(ctl))))
 		o.Probe("autoload_through_a_vm", 1)
 		if c == nil || ctl != nil {
@@ -681,8 +694,14 @@ func step(o *hx.Outcome, w *W, sy *sys, m *model, k int, op Op, log *[]string, o
 		}
 		// classes loaded on demand: registered (without loading) exactly where they were loaded
 		for _, name := range loadables {
-			c, ok := sy.vm(v).GetClass(name)
-			has := ok && c != nil
+			var has bool
+			if strings.HasSuffix(name, "\\Ia") {
+				c, ok := sy.vm(v).GetInterface(name)
+				has = ok && c != nil
+			} else {
+				c, ok := sy.vm(v).GetClass(name)
+				has = ok && c != nil
+			}
 			may := sy.auto[0][name] || sy.auto[v][name]
 			vmk := "temp"
 			if v == 0 {
